@@ -67,7 +67,7 @@ NUMS = [str(10 ** k) for k in range(0, 20)] + ["0", "7", "007", "0012", "1234", 
                                               "12345678901234567890", "9" * 20, "1" * 19]
 NUMCTX = [("int", ""), ("bigint", " NOT NULL"), ("numeric(20)", ", c2 int"), ("int", " PRIMARY KEY")]
 # numeric defaults given by an ALTER statement that re-declares the column (the earlier default 10 must be replaced, also by 0)
-NUMALTER = ["ALTER TABLE t MODIFY COLUMN c1 int DEFAULT {v};", "ALTER TABLE t ALTER COLUMN c1 int DEFAULT {v};", "ALTER TABLE t MODIFY c1 int DEFAULT {v};"]
+NUMALTER = ["ALTER TABLE t ADD CONSTRAINT dn DEFAULT {v} FOR c1;", "ALTER TABLE t MODIFY COLUMN c1 int DEFAULT {v};", "ALTER TABLE t ALTER COLUMN c1 int DEFAULT {v};", "ALTER TABLE t MODIFY c1 int DEFAULT {v};"]
 
 
 def bounds(tier):
